@@ -140,6 +140,12 @@ impl Op {
             ));
         }
 
+        // A macro invocation with an argument referring to a macro parameter
+        // not provided by the caller?
+        if let Some(message) = parameters.unresolved_argument() {
+            return Err(Error::Syntax(message.clone()));
+        }
+
         let name = parameters.definition.operator_name();
 
         // A pipeline?
